@@ -625,7 +625,7 @@ def unroll(tree, nodes=None):
             return True
         if isinstance(v, ast.Attribute) and isinstance(v.value, ast.Name):
             return v.attr in ("append", "add", "extend", "update", "remove", "discard", "pop", "popleft", "appendleft", "insert", "setdefault", "get", "write") \
-                or (v.attr in METHOD_NAMES and v.value.id in ("self", "cls"))
+                or v.attr in METHOD_NAMES
         if isinstance(v, ast.Call):
             f = v.func
             return (f.id if isinstance(f, ast.Name) else f.attr if isinstance(f, ast.Attribute) else None) in ("attrgetter", "itemgetter", "methodcaller", "partial")
@@ -635,7 +635,7 @@ def unroll(tree, nodes=None):
         fold = True
     quant = any(isinstance(x, ast.Call) and isinstance(x.func, ast.Name) and x.func.id in ("all", "any") and x.args and isinstance(x.args[0], ast.GeneratorExp)
                 and isinstance(x.args[0].generators[0].iter, (ast.Name, ast.Tuple, ast.List, ast.Attribute)) for x in nodes)
-    if not (has_for or fold or choice or quant):
+    if not (has_for or fold or choice or quant) and not any(isinstance(x, ast.Assign) and isinstance(x.value, ast.Name) and x.value.id in METHOD_NAMES for x in nodes):
         return tree, 0
     tables = _Tables(tree, nodes)
     u = _Unroller(tables)
@@ -654,7 +654,11 @@ def unroll(tree, nodes=None):
     op_names = {a.asname or a.name for x in nodes if isinstance(x, ast.ImportFrom) and x.module == "operator" for a in x.names}
     if op_names & {"contains", "eq", "ne", "is_", "is_not"}:
         fold = True
-    if u.count or fold or dispatch:
+    # a local bound to one of several functions by a test and then called:  mover = f if c else g; mover(a…)
+    fn_locals = {x.targets[0].id for x in nodes if isinstance(x, ast.Assign) and len(x.targets) == 1 and isinstance(x.targets[0], ast.Name)
+                 and isinstance(x.value, ast.Name) and x.value.id in METHOD_NAMES}
+    picked = bool(fn_locals) and any(isinstance(x, ast.Call) and isinstance(x.func, ast.Name) and x.func.id in fn_locals for x in nodes)
+    if u.count or fold or dispatch or picked:
         tree = _Fold(tables, op_names).visit(tree)
         ast.fix_missing_locations(tree)
         choice = True
@@ -662,7 +666,8 @@ def unroll(tree, nodes=None):
         _split_ifexp_assign(tree)
         # constants picked by a branch and used reflectively further down: read the continuation once per choice
         for fn in ast.walk(tree):
-            if isinstance(fn, (ast.FunctionDef, ast.AsyncFunctionDef)) and (_reflective_use(fn.body, None) or _has_row_binding(fn.body)):
+            if isinstance(fn, (ast.FunctionDef, ast.AsyncFunctionDef)) and (_reflective_use(fn.body, None) or _has_row_binding(fn.body) or (
+                    picked and any(isinstance(x, ast.Call) and isinstance(x.func, ast.Name) and x.func.id in fn_locals for x in ast.walk(fn)))):
                 assigned_ = {x.id for x in ast.walk(fn) if isinstance(x, ast.Name) and not isinstance(x.ctx, ast.Load)} | \
                     {a.arg for a in fn.args.args if a.arg not in ("self", "cls")}
                 fn.body = _fold_constant_tests(specialise(fn.body, 0, assigned_)) or fn.body
@@ -862,7 +867,7 @@ def _apply_local_lambdas(tree):
                 elif isinstance(st.value, ast.Attribute) and _simple(st.value) and isinstance(st.value.value, ast.Name) \
                         and stores.get(st.value.value.id, 0) <= 1 and (st.value.attr in ("append", "add", "extend", "update", "remove", "discard", "pop", "popleft",
                                                                                           "appendleft", "insert", "setdefault", "get", "write")
-                                                                       or (st.value.attr in METHOD_NAMES and st.value.value.id in ("self", "cls"))):
+                                                                       or st.value.attr in METHOD_NAMES):
                     lam[st.targets[0].id] = st.value  # keep = kept.append … keep(x): a bound method of a container held in a local
         if not lam:
             continue
@@ -1078,7 +1083,7 @@ def _const_binding(st, out, assigned=None):
         out[t.id] = _as_lambda(v)  # methodcaller("add_cable", e) and the like: the function it stands for
         return True
     ok = (lambda x: _pure(x) and _stable(x, assigned)) if assigned is not None else _pure
-    if isinstance(t, ast.Name) and ok(v) and not isinstance(v, ast.Name):
+    if isinstance(t, ast.Name) and ok(v) and (not isinstance(v, ast.Name) or (v.id in METHOD_NAMES and v.id not in (assigned or ()))):
         out[t.id] = v
         return True
     if isinstance(t, (ast.Tuple, ast.List)) and isinstance(v, (ast.Tuple, ast.List)) and len(t.elts) == len(v.elts) \
